@@ -11,8 +11,8 @@
      peak has no closed form; psig is covered for slopes of equal sign, dsig under its precondition (peak at the midpoint
      of the centres);
    * S and Z at zero width (a = b) are outside the property's quantifier; C13_sz_zero_width states what the code does. *)
-From Coq Require Import Reals ZArith List Bool Floats.
-From LibaV Require Import Common.NumOps Common.ROps Common.FloatOps C12.PidDefs C13.R13Ops C13.MfDefs C13.FuzzyDefs
+From Coq Require Import Reals ZArith List Bool.
+From LibaV Require Import Common.NumOps Common.ROps C12.PidDefs C13.R13Ops C13.MfDefs C13.FuzzyDefs
   C13.MfProofs C13.MfCont C13.MfExtra C13.OprProofs C13.FuzzyLimits C13.FuzzyProofs C13.FuzzyGains C13.Examples.
 Import ListNotations.
 Local Open Scope R_scope.
@@ -358,15 +358,7 @@ Theorem C13_zero_sum_keeps_base : exists s',
 Proof. exact ex_bounded_gains. Qed.
 Print Assumptions C13_zero_sum_keeps_base.
 
-(* ... while a_pid_fuzzy_out_ AS FOUND (no guard before inv = 1 / inv), run on the binary64 instance, stores NaN as kp *)
-Theorem C13_out_as_found_refuted :
-  is_nan (kp_of (fuzzy_out_orig F64_ops (ex_state F64_ops 3) (half F64_ops) (half F64_ops))) = true.
-Proof. exact orig_out_refuted. Qed.
-Print Assumptions C13_out_as_found_refuted.
-
-(* a block sized for one active set per input while two are active: the model reports the overrun (Fail ErrScratch) *)
-Theorem C13_overrun_detected :
-  match fuzzy_out_ F64_ops (set_bfuzz (ex_state F64_ops 2) 1 0 0%float) (half F64_ops) (half F64_ops) with
-  | Fail ErrScratch => true | _ => false end = true.
-Proof. exact overrun_detected. Qed.
-Print Assumptions C13_overrun_detected.
+(* ... while a_pid_fuzzy_out_ AS FOUND (no guard before inv = 1 / inv), run on the binary64 instance, stores NaN as kp:
+   C13/Examples.v, orig_out_refuted (vm_compute on primitive floats; kept out of this file so that the assumptions
+   listed here are the real-number axioms only).  Likewise overrun_detected: a block sized for one active set per input
+   while two are active makes the model return Fail ErrScratch.  checks/C13.py builds C13/Examples.v on every run. *)
